@@ -42,6 +42,7 @@ ATOMS = AtomTable()
 
 def reset():
     ATOMS.reset()
+    PURIFY_LINEAR[0] = 0
 
 
 def _frac(v):
@@ -180,6 +181,12 @@ class Poly:
             return a * b.t[()]
         if len(a.t) == 1 and () in a.t:
             return b * a.t[()]
+        if PURIFY_LINEAR[0]:
+            # keep non-linear products small: a long linear operand is replaced by one defined atom (u := operand)
+            if len(a.t) > PURIFY_LINEAR[0] and a.is_linear():
+                a = lin_atom(a)
+            if len(b.t) > PURIFY_LINEAR[0] and b.is_linear():
+                b = lin_atom(b)
         t = {}
         for k1, v1 in a.t.items():
             for k2, v2 in b.t.items():
@@ -355,6 +362,17 @@ class Poly:
 
 ZERO = Poly()
 ONE = Poly.const(1)
+PURIFY_LINEAR = [0]      # 0 = off; K > 0: linear operands with more than K terms are purified inside non-linear products
+
+
+def lin_atom(p):
+    """defined atom u := p for a linear form p (memoised by value, so equal forms share the atom)"""
+    key = ('lin', p.key())
+    a = ATOMS.memo.get(key)
+    if a is None:
+        a = ATOMS.new('lin', p)
+        ATOMS.memo[key] = a
+    return Poly.var(a)
 
 
 def as_poly(v):
@@ -587,7 +605,7 @@ class AtomEnv(dict):
         elif kind == 'ite':
             c, p, q = info
             v = p.evalf(self) if cond_evalf(c, self) else q.evalf(self)
-        elif kind == 'opq':
+        elif kind in ('opq', 'lin'):
             v = info.evalf(self)
         else:
             raise KeyError('atom a%d (%s) has no value' % (a, kind))
